@@ -76,7 +76,14 @@ class L4Run:
             for _ in range(4):
                 if not w.mailbox_pump():
                     break
+            q = len(w.sides[self.a].m._outbound._outbound_queue)
+            if not self.real and len(la) > 1 and la[1] < q:
+                w.pause_after[self.a] = la[1]       # the send buffer fills after la[1] of the q records to re-send
             w.connect()
+        elif a == "Drain":
+            conn = w.sides[self.a].conn
+            left = len(w.sides[self.a].m._outbound._queued_unsent)
+            conn.drained(la[1] if la[1] < left else None)
         elif a == "ReconnectA":
             # the Leader (= side a) selects the new connection: KCM, then its whole queue again; the KCM makes
             # the Follower's end a candidate
@@ -100,6 +107,12 @@ class L4Run:
             self.do(("ReconnectA", 0) if self.real else ("Reconnect", 0))
         if self.real and w.can_select(self.b):
             self.do(("SelectB", 0))
+        if not self.real:
+            for _ in range(20):
+                c = w.sides[self.a].conn
+                if c is None or not w.sides[self.a].m._outbound._queued_unsent:
+                    break
+                c.drained(None)
         w.pump()
 
     def _deliver_until(self, frm, kinds):
@@ -146,6 +159,13 @@ class L4Run:
         w = self.w
         quiet = w.up and all(s.conn is not None and s.conn.alive for s in w.sides.values())
         if quiet:
+            if not self.real:
+                # "quiet" includes the transport having drained: whatever the Outbound still holds back goes out
+                for _ in range(20):
+                    c = w.sides[self.a].conn
+                    if c is None or not w.sides[self.a].m._outbound._queued_unsent:
+                        break
+                    c.drained(None)
             w.pump()
         rec = {"tid": tid, "kind": "l4", "issued": list(self.issued), "delivered": self.delivered(), "goal": bool(quiet),
                "internal": [repr(e)[:120] for e in w.logged] + self.errors + [repr(e)[:100] for s in w.sides.values() for e in s.errors],
@@ -410,15 +430,17 @@ def run(prop, tier):
         wd.gen_tables()
         cov["tables"] = wd.tables_info
         if prop == "C10":
-            cfgs = {"r3c2": dict(MaxRecords=3, MaxCuts=2, Window=False), "r5c2": dict(MaxRecords=5, MaxCuts=2, Window=False),
-                    "w3c2": dict(MaxRecords=3, MaxCuts=2, Window=True), "w5c2": dict(MaxRecords=5, MaxCuts=2, Window=True)}
+            cfgs = {"r3c2": dict(MaxRecords=3, MaxCuts=2, Window=False, Backpressure=False), "r5c2": dict(MaxRecords=5, MaxCuts=2, Window=False, Backpressure=False),
+                    "w3c2": dict(MaxRecords=3, MaxCuts=2, Window=True, Backpressure=False), "w5c2": dict(MaxRecords=5, MaxCuts=2, Window=True, Backpressure=False),
+                    "b4c2": dict(MaxRecords=4, MaxCuts=2, Window=False, Backpressure=True)}
             if not quick:
-                cfgs["r8c3"] = dict(MaxRecords=8, MaxCuts=3, Window=False)
-                cfgs["w7c3"] = dict(MaxRecords=7, MaxCuts=3, Window=True)
+                cfgs["r8c3"] = dict(MaxRecords=8, MaxCuts=3, Window=False, Backpressure=False)
+                cfgs["w7c3"] = dict(MaxRecords=7, MaxCuts=3, Window=True, Backpressure=False)
+                cfgs["b6c3"] = dict(MaxRecords=6, MaxCuts=3, Window=False, Backpressure=True)
             for name, consts in cfgs.items():
                 m = "MC_C10_" + name
-                common.write_model(wd, m, "DilationL4", consts, invariants=["InOrderOnce", "NothingForgotten", "Goal"],
-                                   properties=["EventuallyAll"] if name in ("r3c2", "w3c2") else [])
+                common.write_model(wd, m, "DilationL4", consts, invariants=["InOrderOnce", "NothingForgotten", "Goal", "UnsentSane"],
+                                   properties=["EventuallyAll"] if name in ("r3c2", "w3c2", "b4c2") else [])
                 r = tlc.run(m + ".tla", m + ".cfg", cwd=wd.path, timeout=1800)
                 cov["tlc_configs"][name] = {"distinct_states": r.distinct, "states_generated": r.generated, "depth": r.depth,
                                             "wall_s": round(r.wall, 1), "result": "ok" if r.ok else (r.violated or "error")}
@@ -427,10 +449,10 @@ def run(prop, tier):
                 if not r.ok and not r.violated:
                     raise RuntimeError("TLC failed on %s: %s" % (m, r.error or r.stdout[-1500:]))
             behaviours = []      # (behaviour, window?, origin)
-            for win in (False, True):
-                g = "MC_C10_gen_w" if win else "MC_C10_gen"
-                common.write_model(wd, g, "DilationL4", dict(MaxRecords=8, MaxCuts=3, Window=win))
-                simdir = wd.file("sim_w" if win else "sim")
+            for win, bp in ((False, False), (True, False), (False, True)):
+                g = "MC_C10_gen_w" if win else ("MC_C10_gen_b" if bp else "MC_C10_gen")
+                common.write_model(wd, g, "DilationL4", dict(MaxRecords=8, MaxCuts=3, Window=win, Backpressure=bp))
+                simdir = wd.file("sim_w" if win else ("sim_b" if bp else "sim"))
                 os.makedirs(simdir)
                 tlc.run(g + ".tla", g + ".cfg", cwd=wd.path, workers=6, simulate={"num": (120 if quick else 1200) // 6, "file": os.path.join(simdir, "tr")},
                         depth=45, seed=seed + 10, timeout=900)
@@ -445,11 +467,23 @@ def run(prop, tier):
                 "all_delivered_after_two_windows": "cuts >= 2 /\\ connB /\\ Len(delivered) >= 5",
                 "send_during_window": "cand /\\ last[1] = \"AppSend\" /\\ Len(inq) >= 1",
             }
-            wit, unreached = common.witnesses(wd, "DilationL4", dict(MaxRecords=6, MaxCuts=2, Window=True), goals, "MC_C10_goal")
+            wit, unreached = common.witnesses(wd, "DilationL4", dict(MaxRecords=6, MaxCuts=2, Window=True, Backpressure=False), goals, "MC_C10_goal")
             cov["witness_goals"] = {"reached": [g_ for g_, _ in wit], "unreached": unreached}
             for g_, tr in wit:
                 # continue each witness to quiescence so that the waiting records are actually dispatched
                 behaviours.append((tr, True, "tlc-witness:" + g_))
+            # ... and a re-send throttled by the transport when the connection is lost again
+            bgoals = {
+                "lost_while_throttled": "~linkUp /\\ connA /\\ apaused /\\ Len(unsent) >= 2",
+                "second_resend_after_throttled_loss": 'cuts >= 2 /\\ last[1] = "Reconnect" /\\ Len(oq) >= 3',
+                "send_behind_waiting": 'last[1] = "AppSend" /\\ Len(unsent) >= 2',
+                "drained_in_two_steps": 'last[1] = "Drain" /\\ unsent = <<>> /\\ cuts >= 1 /\\ Len(delivered) >= 1',
+                "all_delivered_after_throttled_losses": "cuts >= 2 /\\ Len(delivered) >= 4 /\\ unsent = <<>> /\\ connA /\\ connB /\\ linkUp",
+            }
+            wit, unreached = common.witnesses(wd, "DilationL4", dict(MaxRecords=5, MaxCuts=2, Window=False, Backpressure=True), bgoals, "MC_C10_bgoal")
+            cov["witness_goals_backpressure"] = {"reached": [g_ for g_, _ in wit], "unreached": unreached}
+            for g_, tr in wit:
+                behaviours.append((tr, False, "tlc-witness:" + g_))
             for tr, win, origin in behaviours:
                 for a in (("L",) if win else ("L", "F")):
                     tid += 1
